@@ -230,9 +230,17 @@ SRCTIE = {
                                                               "BlockWriter.insert", "BlockWriter.finish"]),
     "Grenad.SrcTie.BlockWriter": ("SrcBlockWriter", ["BlockWriter", "BlockWriter.reset", "BlockWriter.current_size_estimate",
                                                      "BlockWriter.insert", "BlockWriter.finish", "varint_encode32"]),
+    "Grenad.SrcTie.Merger": ("SrcMerger", ["Entry", "Entry.cmp"]),
+    "Grenad.SrcTie.BlockLoad": ("SrcBlock", ["Block", "Block.read_from", "CompressionType"]),
+    "Grenad.SrcTie.CountWrite": ("SrcCountWrite", ["CountWrite", "CountWrite.new", "CountWrite.count", "CountWrite.write", "CountWrite.flush",
+                                                   "CountWrite.into_inner"]),
+    "Grenad.SrcTie.WriterBlock": ("SrcWriterBlock", ["BlockBuffer", "compress_and_write_block"]),
 }
-for _p, _mods in {"C14": ["Varint", "Block", "C14Src"], "C13": ["Meta", "C13Src"], "C10": ["Meta", "C10Src"], "C09": ["Meta", "BlockWriter", "Varint", "C13Src"], "C04": ["IterRange", "IterNext", "C04C05Src"],
-                  "C05": ["IterPrefix", "C05Src", "IterNext", "C04C05Src"], "C18": ["BlockWriter", "C18Src"], "C15": ["BlockWriter", "WriterBuilder"], "C01": ["BlockWriter", "Varint", "Meta", "Block", "BlockCursor", "TBlockSrc", "BuiltSrc", "NoPanic", "EndToEnd"], "C02": ["BlockCursor", "Smoke", "TBlockSrc", "NoPanic"]}.items():
+for _p, _mods in {"C14": ["Varint", "Block", "C14Src"], "C13": ["Meta", "C13Src"], "C10": ["Meta", "C10Src"],
+                  "C09": ["Meta", "BlockWriter", "Varint", "C13Src", "CountWrite", "WriterBlock"], "C04": ["IterRange", "IterNext", "C04C05Src"],
+                  "C05": ["IterPrefix", "C05Src", "IterNext", "C04C05Src"], "C18": ["BlockWriter", "C18Src", "WriterBlock"], "C15": ["BlockWriter", "WriterBuilder"],
+                  "C01": ["BlockWriter", "Varint", "Meta", "Block", "BlockCursor", "TBlockSrc", "BuiltSrc", "NoPanic", "EndToEnd", "BlockLoad", "WriterBlock"],
+                  "C02": ["BlockCursor", "Smoke", "TBlockSrc", "NoPanic"], "C06": ["Merger"], "C11": ["CountWrite"]}.items():
     PROPS[_p]["srctie"] = ["Grenad.SrcTie." + m for m in _mods]
 
 
